@@ -58,6 +58,13 @@ fn main() {
             }
             std::process::exit(sup::replay(&args[2]));
         }
+        "prog" => {
+            // sim prog <check> <tier> <program.json>: judge a hand-written program
+            if args.len() < 5 {
+                usage();
+            }
+            std::process::exit(sup::judge_file(&args[2], &args[3], &args[4]));
+        }
         "sig" => {
             if args.len() < 3 {
                 usage();
